@@ -1,2 +1,3 @@
 import Model.Browser
 import Model.Diag
+import Model.Slice
